@@ -38,23 +38,152 @@ theorem rekey_fold (x y z : Var) (g : Key × Bool → Var → Key × Bool)
           cases ins <;> simp_all
         simp [rekeyGo, hxy, this]
 
+/-! ### the list-based shape: filter out `x`, `y`; find the position of the first larger label; insert `z` there -/
+
+/-- `z` inserted before the first label greater than it, at the end if there is none -/
+def rekeyInsAt (z : Var) : List Var → List Var
+  | [] => [z]
+  | i :: r => if z < i then z :: i :: r else i :: rekeyInsAt z r
+
+/-- index of the first label greater than `z` (the length if there is none) -/
+def rekeyPos (z : Var) : List Var → Nat
+  | [] => 0
+  | i :: r => if z < i then 0 else rekeyPos z r + 1
+
+theorem rekeyGo_true (x y z : Var) : ∀ l : Key,
+    rekeyGo x y z l true = l.filter (fun i => decide (¬ (i = x ∨ i = y))) := by
+  intro l
+  induction l with
+  | nil => simp [rekeyGo]
+  | cons i r ih =>
+    rw [List.filter_cons]
+    by_cases h : i = x ∨ i = y
+    · rw [if_neg (by rw [decide_eq_true_eq]; exact fun hn => hn h)]; simp only [rekeyGo, if_pos h, ih]
+    · rw [if_pos (by simpa using h)]; simp [rekeyGo, if_neg h, ih]
+
+theorem rekeyGo_false (x y z : Var) : ∀ l : Key,
+    rekeyGo x y z l false = rekeyInsAt z (l.filter (fun i => decide (¬ (i = x ∨ i = y)))) := by
+  intro l
+  induction l with
+  | nil => simp [rekeyGo, rekeyInsAt]
+  | cons i r ih =>
+    rw [List.filter_cons]
+    by_cases h : i = x ∨ i = y
+    · rw [if_neg (by rw [decide_eq_true_eq]; exact fun hn => hn h)]; simp only [rekeyGo, if_pos h, ih]
+    · rw [if_pos (by simpa using h)]
+      by_cases hz : z < i
+      · simp [rekeyGo, if_neg h, hz, rekeyInsAt, rekeyGo_true]
+      · simp [rekeyGo, if_neg h, hz, rekeyInsAt, ih]
+
+theorem rekeyInsAt_pos (z : Var) : ∀ l : List Var,
+    l.take (rekeyPos z l) ++ z :: l.drop (rekeyPos z l) = rekeyInsAt z l := by
+  intro l
+  induction l with
+  | nil => simp [rekeyPos, rekeyInsAt]
+  | cons i r ih => by_cases hz : z < i <;> simp [rekeyPos, rekeyInsAt, hz, ih]
+
+/-- the search loop `position = len(rest); for index, i in enumerate(rest): if z < i: position = index; break` -/
+theorem rekey_forB (z : Var) (g : Nat → Nat × Var → Brk Nat)
+    (hg : ∀ acc idx i, g acc (idx, i) = if z < i then Brk.brk idx else Brk.next acc) :
+    ∀ (l : List Var) (n : Nat), pyForB (pyEnumerateFrom n l) (n + l.length) g = n + rekeyPos z l := by
+  intro l
+  induction l with
+  | nil => intro n; simp [pyEnumerateFrom, pyForB, rekeyPos]
+  | cons i r ih =>
+    intro n
+    by_cases hz : z < i
+    · simp [pyEnumerateFrom, pyForB, hg, hz, rekeyPos]
+    · have := ih (n + 1)
+      simp only [pyEnumerateFrom, pyForB, hg, hz, if_false, rekeyPos, List.length_cons]
+      rw [show n + (r.length + 1) = n + 1 + r.length by omega, this]; omega
+
+theorem rekey_forB0 (z : Var) (g : Nat → Nat × Var → Brk Nat)
+    (hg : ∀ acc idx i, g acc (idx, i) = if z < i then Brk.brk idx else Brk.next acc) (l : List Var) :
+    pyForB (pyEnumerateFrom 0 l) l.length g = rekeyPos z l := by
+  have h := rekey_forB z g hg l 0
+  simpa using h
+
+/-- `next((n for n, i in enumerate(rest) if z < i), len(rest))` -/
+theorem rekey_next (z : Var) (f : Nat × Var → Nat) (p : Nat × Var → Bool)
+    (hf : ∀ idx i, f (idx, i) = idx) (hp : ∀ idx i, p (idx, i) = decide (z < i)) :
+    ∀ (l : List Var) (n : Nat),
+      pyRNextD (List.map f (List.filter p (pyEnumerateFrom n l))) (n + l.length) = n + rekeyPos z l := by
+  intro l
+  induction l with
+  | nil => intro n; simp [pyEnumerateFrom, pyRNextD, rekeyPos]
+  | cons i r ih =>
+    intro n
+    by_cases hz : z < i
+    · simp [pyEnumerateFrom, List.filter_cons, hp, hf, hz, pyRNextD, rekeyPos]
+    · have := ih (n + 1)
+      simp only [pyEnumerateFrom, List.filter_cons, hp, hz, decide_false, rekeyPos, List.length_cons, if_false,
+        Bool.false_eq_true]
+      rw [show n + (r.length + 1) = n + 1 + r.length by omega, this]; omega
+
+theorem rekey_next0 (z : Var) (f : Nat × Var → Nat) (p : Nat × Var → Bool)
+    (hf : ∀ idx i, f (idx, i) = idx) (hp : ∀ idx i, p (idx, i) = decide (z < i)) (l : List Var) :
+    pyRNextD (List.map f (List.filter p (pyEnumerateFrom 0 l))) l.length = rekeyPos z l := by
+  have h := rekey_next z f p hf hp l 0
+  simpa using h
+
+theorem rekeyPos_le (z : Var) : ∀ l : List Var, rekeyPos z l ≤ l.length := by
+  intro l
+  induction l with
+  | nil => simp [rekeyPos]
+  | cons i r ih => by_cases hz : z < i <;> simp [rekeyPos, hz]; omega
+
+/-- `l[:n]` and `l[n:]` for a natural number `n` -/
+theorem rekey_slice_to {α : Type} (l : List α) (n : Nat) : pySlice l none (some (n : Int)) = l.take n := by
+  simp only [pySlice, pyClamp, List.drop_zero]
+  rw [if_neg (by omega)]
+  simp only [Int.toNat_natCast]
+  rcases Nat.le_total n l.length with h | h
+  · rw [Nat.min_eq_left h]
+  · rw [Nat.min_eq_right h, List.take_of_length_le h, List.take_of_length_le (Nat.le_refl _)]
+
+theorem rekey_slice_from {α : Type} (l : List α) (n : Nat) : pySlice l (some (n : Int)) none = l.drop n := by
+  simp only [pySlice, pyClamp]
+  rw [if_neg (by omega), List.take_of_length_le (Nat.le_refl _)]
+  simp only [Int.toNat_natCast]
+  rcases Nat.le_total n l.length with h | h
+  · rw [Nat.min_eq_left h]
+  · rw [Nat.min_eq_right h, List.drop_of_length_le h, List.drop_of_length_le (Nat.le_refl _)]
+
 /-- **(c)** the generated key rewrite is the model's `rekey`: `x` and `y` are dropped and `z` goes right before the first
 remaining label that is greater than it (at the end if there is none) -/
 theorem rd_rekey_eq_model (key : Key) (x y z : Var) : rd_rekey key x y z = rekey key x y z := by
   unfold rd_rekey rekey
   simp only []
-  generalize hG : List.foldl _ ([], false) key = r
-  have h : r.1 ++ (if r.2 = false then [z] else []) = rekeyGo x y z key false := by
-    rw [← hG]
-    refine (rekey_fold x y z _ ?_ key [] false).trans (by simp)
-    intro acc ins i
-    first
-      | (simp only []; split_ifs <;> first | rfl | simp_all)
-      | (by_cases h1 : i = x ∨ i = y <;> by_cases h2 : ins = false ∧ z < i <;> simp_all)
-  rw [← h]
   first
-    | (split_ifs <;> simp_all)
-    | (cases hb : r.2 <;> simp_all)
+  | -- the shape of the original source: one fold that rebuilds the key
+    generalize hG : List.foldl _ ([], false) key = r
+    have h : r.1 ++ (if r.2 = false then [z] else []) = rekeyGo x y z key false := by
+      rw [← hG]
+      refine (rekey_fold x y z _ ?_ key [] false).trans (by simp)
+      intro acc ins i
+      first
+        | (simp only []; split_ifs <;> first | rfl | simp_all)
+        | (by_cases h1 : i = x ∨ i = y <;> by_cases h2 : ins = false ∧ z < i <;> simp_all)
+    rw [← h]
+    first
+      | (split_ifs <;> simp_all)
+      | (cases hb : r.2 <;> simp_all)
+  | -- the list-based shape: filter, search loop with `break`, `insert`
+    (rw [rekeyGo_false, ← rekeyInsAt_pos]
+     simp only [List.map_id', pyRListInsert, pyREnumerate]
+     rw [rekey_forB0 z]
+     intro acc idx i
+     first
+       | (simp only []; done)
+       | (simp only []; split_ifs <;> rfl)
+       | (split_ifs <;> simp_all))
+  | -- the slicing shape: filter, `next(… enumerate …, len(rest))`, `rest[:position] + (z,) + rest[position:]`
+    (rw [rekeyGo_false, ← rekeyInsAt_pos]
+     simp only [List.map_id', pyREnumerate, rekey_slice_to, rekey_slice_from]
+     rw [rekey_next0 z]
+     · simp only [List.append_assoc, List.singleton_append, List.cons_append, List.nil_append]
+     · intro idx i; first | (simp only []; done) | simp
+     · intro idx i; first | (simp only []; done) | simp)
 
 example : rd_rekey [1, 2, 5, 9] 2 9 7 = [1, 5, 7] := by decide
 example : rd_rekey [1, 2, 5, 9] 1 2 7 = [5, 7, 9] := by decide
